@@ -288,7 +288,7 @@ func init() {
 						c.Violate(*v)
 						c.Outcome(v.Rule)
 					} else {
-						c.Outcome("never-starved")
+						c.Outcome("never-starved:" + cs.Class)
 					}
 					h.Close()
 				}
